@@ -89,7 +89,8 @@ def _call(child=False, grand=False):
     rich = st.one_of(
         rich, rich,
         st.fixed_dictionaries({'m': st.just('deep'), 'args': st.tuples(TEXT).map(list), 'outcome': st.sampled_from(['value', 'value', 'appexc']), 'ret': TEXT}))
-  return rich.flatmap(lambda c: st.booleans().map(lambda kw: dict(c, kw=kw)))
+  # positional, all by keyword, or by keyword with the first parameter left out (it is then unset: the server sees None)
+  return rich.flatmap(lambda c: st.sampled_from([False, False, True, True, 'partial']).map(lambda kw: dict(c, kw=kw)))
 
 
 def _call2():
@@ -245,7 +246,10 @@ def _run_once(plan, chunks):
     args = [_real(m, a) for a in c['args']]
     if c['kw']:
       names = ARG_NAMES2 if plan['svc'] == 'richchild2' else ARG_NAMES
-      return disp.DispatchMethodCall(m, (), dict(zip(names[m], args)))
+      kw = dict(zip(names[m], args))
+      if c['kw'] == 'partial' and names[m]:
+        del kw[names[m][0]]
+      return disp.DispatchMethodCall(m, (), kw)
     return disp.DispatchMethodCall(m, tuple(args), {})
 
   ars = None
@@ -256,6 +260,8 @@ def _run_once(plan, chunks):
     cur['i'] = i
     m = c['m']
     args = [_real(m, a) for a in c['args']]
+    if c['kw'] == 'partial' and args:
+      args[0] = None      # left out by the caller
     n_before = len(peer.requests)
     r_before = reads['n']
     if concurrent:
